@@ -44,6 +44,29 @@ def systems():
     S.append(dict(name="tp1", G=1.0, eps=1e-3, tp_type=1, active=3, T=20.0,
                   bodies=[dict(m=1.0), dict(m=1e-3, a=1.0, e=0.05, f=0.1), dict(m=3e-4, a=2.2, e=0.08, inc=0.07, f=3.0),
                           dict(m=1e-5, a=1.55, e=0.1, inc=0.1, f=5.0), dict(m=2e-5, a=3.1, e=0.05, Omega=1.0, f=1.0)]))
+    # ---- particle roles (cross-cutting dimension 1)
+    S.append(dict(name="tp0m", G=1.0, eps=1e-3, tp_type=0, active=3, T=20.0, dims=["massive_type0_testparticles"],
+                  bodies=[dict(m=1.0), dict(m=1e-3, a=1.0, e=0.05, f=0.1), dict(m=3e-4, a=2.2, e=0.08, inc=0.07, f=3.0),
+                          dict(m=1e-5, a=1.55, e=0.1, inc=0.1, f=5.0), dict(m=2e-5, a=3.1, e=0.05, Omega=1.0, f=1.0)]))
+    S.append(dict(name="tp1z", G=1.0, eps=1e-3, tp_type=1, active=3, T=20.0, dims=["massless_type1_testparticles"],
+                  bodies=[dict(m=1.0), dict(m=1e-3, a=1.0, e=0.05, f=0.1), dict(m=3e-4, a=2.2, e=0.08, inc=0.07, f=3.0),
+                          dict(m=0.0, a=1.55, e=0.1, inc=0.1, f=5.0), dict(m=0.0, a=3.1, e=0.05, Omega=1.0, f=1.0)]))
+    S.append(dict(name="zeroactive", G=1.0, eps=1e-3, tp_type=0, active=4, T=20.0, dims=["zero_mass_active_body"],
+                  bodies=[dict(m=1.0), dict(m=1e-3, a=1.0, e=0.05, f=0.1), dict(m=0.0, a=1.6, e=0.1, inc=0.05, f=4.0),
+                          dict(m=3e-4, a=2.4, e=0.08, inc=0.07, f=3.0)]))
+    S.append(dict(name="single_active", G=1.0, eps=1e-3, tp_type=0, active=1, T=20.0, dims=["single_active_body"],
+                  bodies=[dict(m=1.0), dict(m=0.0, a=1.0, e=0.3, f=0.4), dict(m=0.0, a=1.9, e=0.1, inc=0.2, f=2.0)]))
+    # ---- geometry (dimension 7): centre of mass away from the origin and moving; an unbound member
+    S.append(dict(name="offset", G=1.0, eps=1e-3, tp_type=0, active=3, T=20.0, boost=(0.3, -0.2, 0.1), shift=(5.0, -3.0, 2.0),
+                  dims=["com_offset_and_boost"],
+                  bodies=[dict(m=1.0), dict(m=1e-3, a=1.0, e=0.05, f=0.3), dict(m=5e-4, a=1.9, e=0.1, inc=0.05, Omega=1.0, f=2.0)]))
+    S.append(dict(name="flyby", G=1.0, eps=1e-3, tp_type=0, active=4, T=20.0, dims=["hyperbolic_member"],
+                  bodies=[dict(m=1.0), dict(m=1e-3, a=1.0, e=0.05, f=0.3), dict(m=5e-4, a=1.9, e=0.1, inc=0.05, Omega=1.0, f=2.0),
+                          dict(m=1e-5, a=-8.0, e=1.5, inc=0.3, Omega=0.5, f=-1.0)]))
+    # ---- options (dimension 3): softening; only for the integrators that take every pair force from the gravity routine
+    S.append(dict(name="soft", G=1.0, eps=1e-3, tp_type=0, active=3, T=20.0, softening=0.05, only=("leapfrog", "janus"),
+                  dims=["softening"],
+                  bodies=[dict(m=1.0), dict(m=1e-3, a=1.0, e=0.05, f=0.3), dict(m=5e-4, a=1.9, e=0.1, inc=0.05, Omega=1.0, f=2.0)]))
     G4 = 39.47841760435743
     S.append(dict(name="nine", G=G4, eps=1e-3, tp_type=0, active=9, T=20.0 / (2 * math.pi),
                   bodies=[dict(m=1.0)] + [dict(m=mm, a=aa, e=0.02 + 0.005 * i, inc=0.01 * i, Omega=0.7 * i, f=1.3 * i)
@@ -63,6 +86,14 @@ def make_sim(rebound, sysd):
             p.vx += sysd["boost"][0]
             p.vy += sysd["boost"][1]
             p.vz += sysd["boost"][2]
+    if "shift" in sysd:
+        for p in sim.particles:
+            p.x += sysd["shift"][0]
+            p.y += sysd["shift"][1]
+            p.z += sysd["shift"][2]
+    if sysd.get("softening"):
+        sim.softening = sysd["softening"]
+    sim.testparticle_hidewarnings = 1
     if sysd["active"] != len(sysd["bodies"]):
         sim.N_active = sysd["active"]
     sim.testparticle_type = sysd["tp_type"]
@@ -166,16 +197,120 @@ def advertised_envelope(cfg, sysd, dt, n_inner):
 
 
 # ----------------------------------------------------------------------------------------------- measuring
-def run_case(rebound, sysd, cfg, dt, T):
-    """fixed-step run of n = T/|dt| steps; returns the final state (synchronized)"""
+FIELD = (0.01, -0.02, 0.005)        # uniform extra acceleration (times n_inner^2): every particle gets x += g t^2/2, v += g t
+
+
+def variant_applies(var, cfg, sysd):
+    fam, nm = cfg["fam"], cfg["name"]
+    if var is None:
+        return True
+    if var == "field":
+        # the exact modified kick is documented to support Newtonian gravity only
+        return not ("/modifiedkick/" in nm or (fam == "saba" and 0x100 <= int(nm.split("/")[1], 16) < 0x200))
+    if var == "variational":
+        return (fam == "whfast" and "/jacobi/default/" in nm) or fam in ("eos", "leapfrog")
+    if var in ("exact_finish", "split_safe1"):
+        return cfg.get("safe", 1) == 1 and fam != "janus" or (var == "split_safe1" and fam == "janus")
+    if var == "keep_unsynchronized":
+        return fam in ("whfast", "saba") and cfg.get("safe") == 0
+    if var == "reversal":
+        return fam != "trace"
+    return True          # callbacks, restore_copy, restore_file
+
+
+VARIANTS = ["field", "callbacks", "variational", "split_safe1", "exact_finish", "restore_copy", "restore_file", "keep_unsynchronized", "reversal"]
+DIM_OF_VARIANT = {"field": "additional_force_uniform_field", "callbacks": "callbacks_installed", "variational": "variational_particles_present",
+                  "split_safe1": "integrate_split_into_calls", "exact_finish": "exact_finish_time_1", "restore_copy": "restore_midrun_copy",
+                  "restore_file": "restore_midrun_archive", "keep_unsynchronized": "keep_unsynchronized_with_explicit_synchronize",
+                  "reversal": "direction_reversal_between_calls"}
+
+
+def run_case(rebound, sysd, cfg, dt, T, variant=None):
+    """fixed-step run of n = T/|dt| steps; returns the final state (synchronized).  `variant` crosses the run with one of the
+    cross-cutting dimensions; the reference is adjusted by ref_adjust()."""
     sim = make_sim(rebound, sysd)
     cfg["set"](sim)
     n = max(1, int(round(abs(T) / abs(dt))))
     sim.dt = T / n
-    if cfg.get("safe") == 0 and n >= 3:
-        # manual-synchronisation mode: three reb_simulation_integrate calls, each returning in a synchronised state after a whole
-        # number of steps (target half a step before the last one; exact_finish_time = 0), so that the first step after every
-        # synchronisation is exercised
+    n_inner = math.sqrt(sysd["G"])
+    keep = []
+    if variant == "field":
+        g = [x * n_inner ** 2 for x in FIELD]
+
+        def frc(simp):
+            s_ = simp.contents
+            ps = s_.particles
+            for i in range(s_.N):
+                ps[i].ax += g[0]
+                ps[i].ay += g[1]
+                ps[i].az += g[2]
+        sim.additional_forces = frc
+        sim.force_is_velocity_dependent = 0
+    elif variant == "callbacks":
+        cnt = [0, 0, 0]
+
+        def hb(simp):
+            cnt[0] += 1
+
+        def pre(simp):
+            cnt[1] += simp.contents.N
+
+        def post(simp):
+            cnt[2] += 1
+        sim.heartbeat = hb
+        sim.pre_timestep_modifications = pre
+        sim.post_timestep_modifications = post
+        keep.append(cnt)
+    elif variant == "variational":
+        v = sim.add_variation()
+        v.particles[1].x = 1e-3
+        v.particles[1].vy = -2e-3
+        v.particles[2].z = 5e-4
+    elif variant == "keep_unsynchronized":
+        if cfg["fam"] == "whfast":
+            sim.ri_whfast.keep_unsynchronized = 1
+        else:
+            sim.ri_saba.keep_unsynchronized = 1
+    split = (cfg.get("safe") == 0 or variant == "split_safe1") and n >= 3
+    if variant == "keep_unsynchronized" and n >= 3:
+        # explicit synchronize() between calls must not disturb the continued integration; outputs are read at the end
+        sim.steps(n // 3)
+        sim.synchronize()
+        mid = state_of(sim)
+        sim.steps(n - n // 3)
+        sim.synchronize()
+    elif variant in ("restore_copy", "restore_file") and n >= 2:
+        sim.steps(n // 2)
+        if cfg.get("safe") == 0:
+            sim.synchronize()
+        if variant == "restore_copy":
+            sim = sim.copy()
+        else:
+            fn = os.path.join(tempfile.gettempdir(), "c01_restore_%d.bin" % os.getpid())
+            if os.path.exists(fn):
+                os.remove(fn)
+            sim.save_to_file(fn)
+            sim = rebound.Simulation(fn)
+            os.remove(fn)
+        sim.steps(n - n // 2)
+        sim.synchronize()
+    elif variant == "reversal" and n >= 4:
+        m_ = n // 4
+        sim.steps(n + m_)
+        sim.synchronize()
+        sim.dt = -sim.dt
+        sim.steps(m_)
+        sim.synchronize()
+    elif variant == "exact_finish" and n >= 2:
+        sim.steps(n - 1)
+        sim.dt = sim.dt * 1.37          # the last step must be shortened by reb_simulation_integrate to land on T exactly
+        sim.integrate(T)
+        if sim.t != T:
+            raise RuntimeError("integrate(T) with exact_finish_time=1 ended at %r, not %r" % (sim.t, T))
+    elif split:
+        # manual-synchronisation mode (and, as a variant, safe mode too): three reb_simulation_integrate calls, each returning in a
+        # synchronised state after a whole number of steps (target half a step before the last one; exact_finish_time = 0), so that
+        # the first step after every synchronisation is exercised
         done = 0
         for nk in (n // 3, n // 3, n - 2 * (n // 3)):
             done += nk
@@ -185,7 +320,25 @@ def run_case(rebound, sysd, cfg, dt, T):
     else:
         sim.steps(n)
         sim.synchronize()
+    if variant == "callbacks" and (keep[0][1] == 0 or keep[0][2] == 0):
+        raise RuntimeError("installed pre/post timestep callbacks were never called: %s" % keep[0])
+    if abs(sim.t - T) > 1e-9 * abs(T):
+        raise RuntimeError("run ended at t=%r instead of %r" % (sim.t, T))
     return sim.t, state_of(sim)
+
+
+def ref_adjust(ref_state, sysd, T, variant):
+    """the exact effect of a variant on the reference solution (only the uniform field has one)"""
+    if variant != "field":
+        return ref_state
+    N = len(sysd["bodies"])
+    g = [x * sysd["G"] for x in FIELD]
+    out = list(ref_state)
+    for i in range(N):
+        for k in range(3):
+            out[3 * i + k] += 0.5 * g[k] * T * T
+            out[3 * N + 3 * i + k] += g[k] * T
+    return out
 
 
 def pos_err(st, ref, N):
@@ -226,7 +379,7 @@ class Refs:
         return self.out
 
 
-def measure_ladder(rebound, sysd, cfg, ref_state, T, n_inner, maxpts=4, nmax=9):
+def measure_ladder(rebound, sysd, cfg, ref_state, T, n_inner, maxpts=4, nmax=9, variant=None):
     """errors on the dt ladder tau0/2^k, largest first, until `maxpts` errors lie in the window or the error drops below it"""
     N = len(sysd["bodies"])
     pts = []
@@ -235,7 +388,7 @@ def measure_ladder(rebound, sysd, cfg, ref_state, T, n_inner, maxpts=4, nmax=9):
         dt = math.copysign(TAU0 / n_inner / 2 ** k, T)
         if cfg.get("fam") == "eos" or cfg.get("fam") == "janus" or cfg.get("fam") == "leapfrog":
             pass
-        t, st = run_case(rebound, sysd, cfg, dt, T)
+        t, st = run_case(rebound, sysd, cfg, dt, T, variant)
         e = pos_err(st, ref_state, N)
         pts.append((abs(T) / max(1, int(round(abs(T) / abs(dt)))), e))
         if ERR_LO <= e <= ERR_HI:
@@ -519,7 +672,7 @@ def run(c):
         sim = make_sim(rebound, sd)
         ics[sd["name"]] = state_of(sim)
         jobs.append(dict(kind="nbody", G=sd["G"], m=[b["m"] for b in sd["bodies"]], active=sd["active"], tp_type=sd["tp_type"],
-                         y0=ics[sd["name"]], times=[sd["T"], -sd["T"]]))
+                         softening=sd.get("softening", 0.0), y0=ics[sd["name"]], times=[sd["T"], -sd["T"]]))
     refs = Refs(jobs)
     # ---------------------------------------------------------------- translator
     D = None
@@ -617,59 +770,97 @@ def search(c, rebound, clib, d, syss, refs, focus):
     t0 = time.time()
     tlimit = 1500 if (c.thorough or focus) else 100
     nrun = 0
+    dims = c.cov.setdefault("dimensions", {})
+
+    def dim(name, k=1):
+        dims[name] = dims.get(name, 0) + k
+    ROLES = ["tp0", "tp1", "tp0m", "tp1z", "zeroactive", "single_active"]
+    GEOM = ["moving", "offset", "flyby"]
+
+    def one_case(cfg, sd, sg, variant):
+        nonlocal nrun
+        fam = cfg["fam"]
+        nm = sd["name"]
+        n_inner = math.sqrt(sd["G"])
+        T = sg * sd["T"]
+        rs = ref_adjust(ref[nm]["states"][repr(T)], sd, T, variant)
+        try:
+            if fam == "trace" and sg < 0:
+                v, det, ratio = trace_backward(c, d, sd, rs, n_inner)
+            else:
+                pts = measure_ladder(rebound, sd, cfg, rs, T, n_inner, variant=variant)
+                v, det, ratio = judge(cfg, sd, pts, n_inner)
+        except Exception as ex:
+            v, det, ratio = "exception", {"exception": repr(ex)}, 0.0
+        nrun += 1
+        hist[v] = hist.get(v, 0) + 1
+        # ---- dimension bookkeeping
+        for dn in sd.get("dims", []):
+            dim(dn)
+        if sd["active"] < len(sd["bodies"]):
+            dim("N_active_lt_N_testparticle_type_%d" % sd["tp_type"])
+        if sd["G"] != 1.0:
+            dim("G_not_1")
+        if "boost" in sd:
+            dim("moving_centre_of_mass")
+        if sg < 0:
+            dim("dt_negative")
+        if cfg.get("safe") == 0:
+            dim("safe_mode_0_three_integrate_calls")
+        if fam == "janus":
+            dim("unequal_janus_scales")
+        if cfg.get("nondefault"):
+            dim("nondefault_integrator_options")
+        if variant:
+            dim(DIM_OF_VARIANT[variant])
+        if not (v in ("too-large", "low-order", "exception") and c.is_known(finding_key(cfg, sd, sg, v))):
+            ratios.setdefault(fam, 0.0)
+            ratios[fam] = max(ratios[fam], ratio)        # margin statistics exclude the cases that are known findings
+        c.count((cfg["name"], nm, sg, variant), nontrivial=(v in ("ok", "too-large", "low-order")))
+        if nrun <= 4:
+            c.sample({"config": cfg["name"], "system": nm, "direction": sg, "variant": variant, "verdict": v, "detail": det})
+        if v in ("too-large", "low-order", "exception"):
+            what = "%s on system %s (T=%g%s): %s" % (cfg["name"], nm, T, (", variant " + variant) if variant else "",
+                                                      {"too-large": "error outside the advertised envelope",
+                                                       "low-order": "observed order below the advertised one", "exception": "exception"}[v])
+            vkey = finding_key(cfg, sd, sg, v)
+            if variant:
+                vkey += ":" + variant
+            c.violation(vkey, what, dict(config=cfg["name"], system=sd["name"], bodies=sd["bodies"], G=sd["G"], T=T, variant=variant,
+                                         N_active=sd["active"], testparticle_type=sd["tp_type"], detail=det,
+                                         how="rv/c01.py: make_sim + cfg.set (+ variant, see run_case); n steps with dt=T/n; compare positions with ref/C01_reference.py"))
+
     for i in order:
         cfg = L[i]
         fam = cfg["fam"]
-        if fam in ("whfast", "saba", "mercurius", "trace"):
-            names = ["two_planets", "moving", "heavy3", "tp0", "tp1", "nine"]
-        elif fam == "eos":
-            names = ["two_planets", "moving", "heavy3", "tp0", "tp1", "kepler2"]
-        else:
-            names = ["kepler2", "two_planets", "moving", "tp0"]
-        if fam == "whfast" and cfg["coord"] == "whds":
-            names = [n for n in names if n != "tp1"] + ["tp1"]
+        names = ["two_planets", "heavy3", "nine"] + GEOM + ROLES
+        if fam in ("eos", "leapfrog", "janus"):
+            names = ["kepler2"] + names
+        names += [x["name"] for x in syss if x.get("only") and fam in x["only"]]
+        names = [n for n in names if not bysys[n].get("only") or fam in bysys[n]["only"]]
+        if fam in ("leapfrog", "janus"):
+            names = [n for n in names if n not in ("heavy3", "nine")]      # not perturbative: nothing gained, long ladders
         if c.thorough or focus:
-            use = names
-            dirs = (1, -1)
+            use = [(nm, sg) for nm in names for sg in (1, -1)]
         else:
-            # quick: every member of the lattice on two of its systems (one of them with test particles), one direction each
-            use = [names[c.rng.randint(0, len(names) - 1)], c.rng.choice([n for n in names if n.startswith("tp")])]
-            use = list(dict.fromkeys(use))
-            dirs = (c.rng.choice([1, -1]),)
-        for nm in use:
-            sd = bysys[nm]
-            n_inner = math.sqrt(sd["G"] * 1.0 / 1.0)
-            for sg in dirs:
-                if time.time() - t0 > tlimit:
-                    break
-                T = sg * sd["T"]
-                rs = ref[nm]["states"][repr(T)]
-                try:
-                    if fam == "trace" and sg < 0:
-                        v, det, ratio = trace_backward(c, d, sd, rs, n_inner)
-                    else:
-                        pts = measure_ladder(rebound, sd, cfg, rs, T, n_inner)
-                        v, det, ratio = judge(cfg, sd, pts, n_inner)
-                except Exception as ex:
-                    v, det, ratio = "exception", {"exception": repr(ex)}, 0.0
-                nrun += 1
-                key = (cfg["name"], nm, sg)
-                verdicts[key] = v
-                hist[v] = hist.get(v, 0) + 1
-                if not (v in ("too-large", "low-order", "exception") and c.is_known(finding_key(cfg, sd, sg, v))):
-                    ratios.setdefault(fam, 0.0)
-                    ratios[fam] = max(ratios[fam], ratio)        # margin statistics exclude the cases that are known findings
-                c.count((cfg["name"], nm, sg), nontrivial=(v in ("ok", "too-large", "low-order")))
-                if nrun <= 4:
-                    c.sample({"config": cfg["name"], "system": nm, "direction": sg, "verdict": v, "detail": det})
-                if v in ("too-large", "low-order", "exception"):
-                    what = "%s on system %s (T=%g): %s" % (cfg["name"], nm, T, {"too-large": "error outside the advertised envelope",
-                                                                                "low-order": "observed order below the advertised one",
-                                                                                "exception": "exception"}[v])
-                    vkey = finding_key(cfg, sd, sg, v)
-                    c.violation(vkey, what, dict(config=cfg["name"], system=sd["name"], bodies=sd["bodies"], G=sd["G"], T=T,
-                                                 N_active=sd["active"], testparticle_type=sd["tp_type"], detail=det,
-                                                 how="rv/c01.py: make_sim + cfg.set; steps(n) with dt=T/n; compare positions with ref/C01_reference.py"))
+            # quick: every member of the lattice on one plain, one particle-role and (every other configuration) one geometry system
+            pl = [n for n in names if n not in ROLES and n not in GEOM]
+            use = [(c.rng.choice(pl), c.rng.choice([1, -1])), (c.rng.choice([n for n in names if n in ROLES]), c.rng.choice([1, -1]))]
+            if c.rng.chance(0.5):
+                use.append((c.rng.choice([n for n in names if n in GEOM]), c.rng.choice([1, -1])))
+        for nm, sg in use:
+            if time.time() - t0 > tlimit:
+                break
+            one_case(cfg, bysys[nm], sg, None)
+        # one (quick) / every (thorough) applicable variant on a random system and direction
+        vs = [v_ for v_ in VARIANTS if variant_applies(v_, cfg, None)]
+        if not (c.thorough or focus):
+            vs = [c.rng.choice(vs)] if vs else []
+        for v_ in vs:
+            if time.time() - t0 > tlimit:
+                break
+            cand = [n for n in names if n not in ("single_active", "kepler2")] if v_ == "variational" else names
+            one_case(cfg, bysys[c.rng.choice(cand)], c.rng.choice([1, -1]) if not (fam == "trace") else 1, v_)
     c.cov["verdict_histogram"] = hist
     c.cov["worst_error_over_unscaled_envelope_by_family"] = {k: float("%.3g" % v) for k, v in ratios.items()}
     c.cov["rule"] = ("every member of the documented option lattice (WHFast 4 coordinate systems x 4 kernels x 6 first correctors x second corrector "
